@@ -139,13 +139,16 @@ def call_rule(built: Built, cfg):
     inst, prof, projs = built.inst, built.prof, built.projs
     tie = core.tie_rule(cfg.get("tie", "lexico"), case, projs)
     init = [projs[n] for n in (cfg.get("init") or [])]
+    pass_init = bool(init)
     if cfg.get("init_obj") is not None:
         init = cfg["init_obj"]  # a caller-owned BudgetAllocation object, possibly shared between several calls
+        # an empty collection is falsy: "init_obj_pass_empty" hands the caller's object over even when it is (still) empty
+        pass_init = bool(init) or bool(cfg.get("init_obj_pass_empty"))
     res = cfg.get("res", True)
     rule = cfg["rule"]
     if rule == "mes":
         kw = dict(sat_class=core.sat_class(cfg["sat"]), tie_breaking=tie, resoluteness=res)
-        if init:
+        if pass_init:
             kw["initial_budget_allocation"] = init
         if cfg.get("binary") is not None:
             kw["binary_sat"] = cfg["binary"]
@@ -156,14 +159,14 @@ def call_rule(built: Built, cfg):
         return R.method_of_equal_shares(inst, prof, **kw)
     if rule == "greedy":
         kw = dict(sat_class=core.sat_class(cfg["sat"]), tie_breaking=tie, resoluteness=res)
-        if init:
+        if pass_init:
             kw["initial_budget_allocation"] = init
         if cfg.get("additive") is not None:
             kw["is_sat_additive"] = cfg["additive"]
         return R.greedy_utilitarian_welfare(inst, prof, **kw)
     if rule == "phragmen":
         kw = dict(tie_breaking=tie, resoluteness=res)
-        if init:
+        if pass_init:
             kw["initial_budget_allocation"] = init
         if cfg.get("loads") is not None:
             kw["initial_loads"] = [core.to_num(x) for x in cfg["loads"]]
@@ -171,7 +174,7 @@ def call_rule(built: Built, cfg):
     if rule == "maxw":
         algo = {"pd": R.MaxAddUtilWelfareAlgo.PRIMAL_DUAL, "ilp": R.MaxAddUtilWelfareAlgo.ILP_SOLVER}[cfg.get("algo", "pd")]
         kw = dict(sat_class=core.sat_class(cfg["sat"]), resoluteness=res, inner_algo=algo)
-        if init:
+        if pass_init:
             kw["initial_budget_allocation"] = init
         return R.max_additive_utilitarian_welfare(inst, prof, **kw)
     raise ValueError(rule)
